@@ -6,6 +6,7 @@
    (evidence: tested, not proved). *)
 From Coq Require Import List NArith ZArith Bool String Permutation.
 From Verif Require Import Model.Analyzer Gen.GenStages Proofs.AnalyzerProofs Base.Text Model.Scope Proofs.ScopeProofs Gen.GenRules Model.Rules Proofs.RulesProofs.
+From Verif Require Model.ExprKind Proofs.ExprKindProofs.
 Import ListNotations.
 
 (* P0003 / P0005: the scan reports nothing exactly when the names are pairwise distinct, and the verdict
@@ -153,3 +154,13 @@ Proof. exact xform_type_init_spec. Qed.
 Theorem C02_type_transformation_reports_its_problems : forall fs ds d, xform_type_init fs = inr ds -> In d ds ->
   In (fst d) [P_DefinitionNameDuplicated; P_UndeclaredUnknownType; P_NotImplemented].
 Proof. exact xform_type_init_codes. Qed.
+
+(* bare identifiers in expressions: when the library resolves, each unit's identifiers are resolved as in that unit alone
+   -- an identifier in an assignment to a variable of an enumeration type is an enumeration value, elsewhere a variable *)
+Theorem C02_expression_resolution_exact : forall us o, ExprKind.resolve_expr_kinds (flat_map ExprKind.flat_unit us) = Some o ->
+  exists os, Forall2 (fun u ou => ExprKind.unit_res u = Some ou) us os /\ o = List.concat os.
+Proof. exact ExprKindProofs.resolved_by_unit. Qed.
+
+Theorem C02_identifier_in_enumeration_assignment : forall tbl n ls, ExprKind.find_kind tbl n = ExprKind.VkEnumType ->
+  ExprKind.seg_res tbl (ExprKind.SAssign (ExprKind.AtNamed n) ls) = Some (map ExprKind.ErEnum ls).
+Proof. exact ExprKindProofs.late_in_enum_assignment. Qed.
